@@ -9,6 +9,10 @@ open Neatvi Neatvi.Lbuf Neatvi.Ex Neatvi.Rset Neatvi.Spec Neatvi.Lemmas.ExFrame 
 theorem some_pair_inj {α β} {a a' : α} {b b' : β} (h : some (a, b) = some (a', b')) : a = a' ∧ b = b' := by
   cases h; exact ⟨rfl, rfl⟩
 
+/-- the end of `:w !cmd`: in vi mode the "press a key" protocol is not modelled -/
+theorem unmod_if_bufs (e : Ed) : (if e.xvis = true then { e with unmodelled := true } else e).bufs = e.bufs := by
+  split <;> rfl
+
 theorem ecWrite_inv {ed ed' : Ed} {loc cmd arg : Bytes} {r : Int} (h : EdInv ed)
     (hw : ecWrite ed loc cmd arg = some (r, ed')) : EdInv ed' := by
   unfold ecWrite at hw
@@ -45,7 +49,7 @@ theorem ecWrite_inv {ed ed' : Ed} {loc cmd arg : Bytes} {r : Int} (h : EdInv ed)
             split at hw
             · split at hw
               · cases hw; exact h3
-              · cases hw; exact h3
+              · cases hw; exact edInv_of_bufs (unmod_if_bufs _) h3
             · split at hw
               · cases hw
               · rename_i err ed4 hs
